@@ -2,7 +2,7 @@
 
 use super::collect_pair;
 use crate::{Error, ErrorKind, InstructionFrame, KIteratorOutput as Output, Result, prelude::*};
-use std::{collections::VecDeque, mem::take, result::Result as StdResult};
+use std::{collections::VecDeque, result::Result as StdResult};
 use thiserror::Error;
 
 /// An iterator that links the output of two iterators together in a chained sequence
@@ -763,12 +763,32 @@ impl KotoIterator for Skip {
 
     fn next_back(&mut self) -> Option<Output> {
         // Ensure the forward output has been skipped before yielding output from the back
-        if self.remaining > 0 {
-            self.iter.nth(self.remaining - 1);
-            self.remaining = 0;
+        if let Some(Some(error)) = self.skip_remaining() {
+            return Some(error);
         }
 
         self.iter.next_back()
+    }
+}
+
+impl Skip {
+    // Skips the remaining output
+    //
+    // If the end of the input or an error is encountered while skipping then it's returned as
+    // `Some(output)`, and should be passed on by the caller.
+    fn skip_remaining(&mut self) -> Option<Option<Output>> {
+        while self.remaining > 0 {
+            self.remaining -= 1;
+            match self.iter.next() {
+                Some(error @ Output::Error(_)) => return Some(Some(error)),
+                Some(_) => {}
+                None => {
+                    self.remaining = 0;
+                    return Some(None);
+                }
+            }
+        }
+        None
     }
 }
 
@@ -776,11 +796,12 @@ impl Iterator for Skip {
     type Item = Output;
 
     fn next(&mut self) -> Option<Self::Item> {
-        if self.remaining > 0 {
-            self.iter.nth(take(&mut self.remaining))
-        } else {
-            self.iter.next()
+        // Errors in the skipped output are passed on rather than being skipped
+        if let Some(output) = self.skip_remaining() {
+            return output;
         }
+
+        self.iter.next()
     }
 
     fn size_hint(&self) -> (usize, Option<usize>) {
@@ -835,7 +856,10 @@ impl Iterator for Step {
     fn next(&mut self) -> Option<Self::Item> {
         let result = self.iter.next();
         for _ in 0..self.step - 1 {
-            self.iter.next();
+            // Errors in the output that's stepped over are passed on rather than being skipped
+            if let Some(error @ Output::Error(_)) = self.iter.next() {
+                return Some(error);
+            }
         }
         result
     }
